@@ -517,30 +517,34 @@ pub fn oneshot_op(a: &[&str]) -> Option<String> {
     Some(tail(fmt_opt(r), fmt_opt(oracle), allocs))
 }
 
+/// the leftmost-first non-overlapping occurrences (what `find_iter` must yield)
 pub(crate) fn greedy_fwd(hay: &[u8], needle: &[u8]) -> Vec<usize> {
+    let step = std::cmp::max(1, needle.len());
     let mut out = Vec::new();
-    let mut pos = 0;
-    while pos <= hay.len() {
-        match naive_find(&hay[pos..], needle) {
-            None => break,
-            Some(i) => {
-                out.push(pos + i);
-                pos = pos + i + std::cmp::max(1, needle.len());
-            }
+    let mut next_ok = 0usize;
+    for i in crate::ops::all_occurrences(hay, needle) {
+        if i >= next_ok {
+            out.push(i);
+            next_ok = i + step;
         }
     }
     out
 }
 
+/// the rightmost-first non-overlapping occurrences (what `rfind_iter` must yield): each one must
+/// END at or before the start of the previous one (an empty needle: one position further left)
 pub(crate) fn greedy_rev(hay: &[u8], needle: &[u8]) -> Vec<usize> {
+    let m = needle.len();
     let mut out = Vec::new();
-    let mut bound = Some(hay.len());
-    while let Some(b) = bound {
-        match naive_rfind(&hay[..b], needle) {
+    let mut bound: Option<usize> = Some(hay.len());
+    for &i in crate::ops::all_occurrences(hay, needle).iter().rev() {
+        match bound {
             None => break,
-            Some(i) => {
-                out.push(i);
-                bound = if needle.is_empty() { i.checked_sub(1) } else { Some(i) };
+            Some(b) => {
+                if i + m <= b {
+                    out.push(i);
+                    bound = if m == 0 { i.checked_sub(1) } else { Some(i) };
+                }
             }
         }
     }
